@@ -302,6 +302,17 @@ class Solver(object):
         self.nnps.update()
         for i in range(len(self.particles)):
             self.nnps.spatially_order_particles(i)
+        # `orig_idx` (used by the *UpdateGhostProps equations to find the
+        # original of a periodic ghost) holds indices: renumber it and
+        # re-create the ghosts from the renumbered originals.
+        renumbered = False
+        for pa in self.particles:
+            if 'orig_idx' in pa.properties:
+                n = pa.num_real_particles
+                pa.orig_idx[:n] = numpy.arange(n)
+                renumbered = True
+        if renumbered:
+            self.nnps.update_domain()
         # We must update after the reorder.
         self.nnps.update()
 
